@@ -216,7 +216,9 @@ class C16(Check):
                         yield ("m", rel, i, "insert", t)
 
         lits = lexical_literals()
+        imps = [("i", pi, fi, h) for pi in range(len(self.IMPORT_PATHS)) for fi in range(len(self.IMPORT_FORMS)) for h in self.IMPORT_HOSTS]
         ls = [("L0-nesting-towers+lexical-boundaries", [[c] for c in towers()] + [("x", c, i) for i in range(len(lits)) for c in range(len(LEX_CTX))]),
+              ("Li-import-paths-x-forms-x-hosts", imps),
               ("L1-grammar-k<=2-all-hosts", gram(2, HOSTS, pre, list(ROOTS))),
               ]
         if tier == "quick":
@@ -251,6 +253,8 @@ class C16(Check):
             return {"tower": case[1], "depth": case[2]}
         if case[0] == "x":
             return {"context": LEX_CTX[case[1]], "literal": lexical_literals()[case[2]][:80]}
+        if case[0] == "i":
+            return {"import": self.IMPORT_FORMS[case[2]].replace("{P}", self.IMPORT_PATHS[case[1]]), "host": case[3]}
         return {"file": case[1], "token": case[2], "op": case[3], "with": case[4]}
 
     def source(self, case):
@@ -267,14 +271,38 @@ class C16(Check):
         toks = pestgen.source_tokens(src)
         return mutate(src, toks, i, op, tok)
 
+    # import statements: every path spelling (existing / missing file, directory, `.`, `..`, trailing separators, self import, odd
+    # extensions) x import form x syntactic host, compiled in a directory that really holds a module, a sub-directory and an empty file
+    IMPORT_PATHS = ["m", "m.ms", "./m", "sub/m", "./sub/m", "sub/m.ms", "nope", "sub/nope", "sub", "./sub", "sub/", ".", "..", "./.", "./..", "../m", "../x",
+                    "sub/..", "sub/../m", "sub/.", "sub/./m", "dirx", "m.mmm", "x", "./x", "x.ms", "empty", "m.", ".m", "m..ms", "m.ms.ms", "M", "sub/../..",
+                    "a/b/c", "m/m", "m.ms/m", "..m", "...", "./", "/", "//m", "m//m", "sub//m", "~", "~/m", "$m", "m m", "m\tm"]
+    IMPORT_FORMS = ["import {P}", "import v from {P}", "import v, w from {P}", "import type T from {P}", "import type T, v from {P}", "import zz from {P}",
+                    "import type Zz from {P}"]
+    IMPORT_HOSTS = {"module": "{S}", "fn": "hf = fn() {{\n\t{S}\n}}", "if": "if true {{\n\t{S}\n}}", "else": "if false {{\n}} else {{\n\t{S}\n}}",
+                    "while": "wq = 0\nwhile wq < 1 {{\n\twq = wq + 1\n\t{S}\n}}", "from": "from 0 to 1 {{\n\t{S}\n}}",
+                    "method": "class Kq {{\n\tconstructor(self) {{}}\n\tfn mq(self) {{\n\t\t{S}\n\t}}\n}}", "ctor": "class Kq {{\n\tconstructor(self) {{\n\t\t{S}\n\t}}\n}}",
+                    "fn-in-fn": "hf = fn() {{\n\thg = fn() {{\n\t\t{S}\n\t}}\n}}", "after-use": "print 1\n{S}\nprint 2"}
+    IMPORT_FILES = {"m.ms": "export v: int = 1\nexport w: int = 2\nexport type T int\n", "sub/m.ms": "export v: int = 3\nexport w: int = 4\nexport type T int\n",
+                    "dirx/inner.ms": "print 1\n", "empty": "", "m.mmm": "garbage"}
+
     def run_case(self, case):
         if isinstance(case, list):      # a tower travels alone in its chunk (a slow one must not delay the others)
             case = case[0]
-        src = self.source(case)
+        extra = {}
+        if case[0] == "i":
+            _, pi, fi, host = case
+            stmt = self.IMPORT_FORMS[fi].replace("{P}", self.IMPORT_PATHS[pi])
+            src = self.IMPORT_HOSTS[host].replace("{S}", stmt).replace("{{", "{").replace("}}", "}") + "\n"
+            extra = self.IMPORT_FILES
+        else:
+            src = self.source(case)
         if src is None:
             return {"outcome": "inexpressible", "nontrivial": False}
         d = driver.fresh_dir()
-        driver.write_files(d, {"x.ms": src})
+        if extra:
+            d = os.path.join(d, "proj")          # one level down, so that `..` is a directory of the scratch area and nothing else
+            os.makedirs(d)
+        driver.write_files(d, dict(extra, **{"x.ms": src}))
         # the quick tier gives a nesting tower 4 s (the known exponential case needs far more than 10 s, everything else far less than 1 s)
         res = driver.run(["compile", "x.ms", "--quick"], d, timeout=4 if (case[0] == "t" and os.environ.get("VERIF_TIER_") == "quick") else 10)
         viol = []
